@@ -139,5 +139,20 @@ CHECKS["C08"] = {
     "note": "dispatch='same'; pool of 3 (+ lazy defaults); depth 4/5; dedup key = graph shape + (kind, ref-count) of "
             "every notifier on every object, trait and container, so merged states have equal hook state",
 }
+CHECKS["C09"] = {
+    "category": "model_checking",
+    "technique": MC + " (history BFS with dedup on counters+graph+notifier fingerprint; injected failing registrations; explicit GC events)",
+    "text": "Every history up to depth 3 (4 thorough) over ~48 events: add/remove of 12 (handler, expression, "
+            "dispatch) registrations (function and bound method, 4 expressions, same/ui), 9 graph mutations, 10 "
+            "registrations that fail at different positions of the walk (child, grandchild, k-th list item, second "
+            "parallel branch, second expression of a list, non-container where a container is required), 3 failing "
+            "removals, garbage collection of the bound method's owner and of an observed object. After every "
+            "history: a change calls each handler once per distinct dispatcher whose registration count is >0 and "
+            "reaches the object (reachability interpreter); removal at count 0 raises NotifierNotFound; when all "
+            "counts are 0 no observer notifier is left anywhere; every raising registration/removal leaves the "
+            "whole-pool notifier fingerprint (kind, ref-count per object/trait/container) identical; weak "
+            "references to collected owner/object are dead and later changes neither raise nor call.",
+    "note": "main-thread dispatch; 3-object pool, 2 handlers; depth 3/4",
+}
 
 NOT_CLAIMED = {}
